@@ -35,14 +35,25 @@ def main():
     out = os.path.join(ROOT, "seeded", sid)
     os.makedirs(out, exist_ok=True)
 
-    rc, diff = run(["git", "diff", "HEAD", "--", "*.go"], cwd=src)
-    if not diff.strip():
-        print("no library change found in", src)
+    stored = not os.path.isdir(src)  # the author's worktree is gone: re-validate the stored copy
+    if not stored:
+        rc, diff = run(["git", "diff", "HEAD", "--", "*.go"], cwd=src)
+        if not diff.strip():
+            print("no library change found in", src)
+            sys.exit(2)
+        open(os.path.join(out, "patch.diff"), "w").write(diff)
+        for f in ("seeded_demo_test.go", "SEEDED.md"):
+            if os.path.exists(os.path.join(src, f)):
+                shutil.copy(os.path.join(src, f), os.path.join(out, f if f != "seeded_demo_test.go" else "seeded_demo_test.go.txt"))
+    elif not os.path.exists(os.path.join(out, "patch.diff")):
+        print("neither", src, "nor a stored patch exists")
         sys.exit(2)
-    open(os.path.join(out, "patch.diff"), "w").write(diff)
-    for f in ("seeded_demo_test.go", "SEEDED.md"):
-        if os.path.exists(os.path.join(src, f)):
-            shutil.copy(os.path.join(src, f), os.path.join(out, f if f != "seeded_demo_test.go" else "seeded_demo_test.go.txt"))
+    try:
+        if "disposition" in json.load(open(os.path.join(out, "meta.json"))):
+            print(sid, "has a recorded disposition (not kept as a seed): skipped")
+            return
+    except Exception:
+        pass
 
     # ---- independent confirmation in a fresh worktree of /repo's HEAD
     vdir = "/tmp/wt/verify-" + sid
@@ -63,7 +74,7 @@ def main():
             sys.exit(2)
         rc1, o1 = run(["go", "test", "-vet=off", "-count=1", "./..."], cwd=vdir)
         meta["ran"].append({"cmd": "go test -vet=off -count=1 ./...  (patched, without the demonstration)", "exit": rc1})
-        shutil.copy(os.path.join(src, "seeded_demo_test.go"), os.path.join(vdir, "seeded_demo_test.go"))
+        shutil.copy(os.path.join(out, "seeded_demo_test.go.txt"), os.path.join(vdir, "seeded_demo_test.go"))
         rc2, o2 = run(["go", "test", "-vet=off", "-count=1", "-run", "TestSeededDemo$", "."], cwd=vdir)
         meta["ran"].append({"cmd": "go test -run TestSeededDemo$ .  (patched)", "exit": rc2, "tail": o2[-600:]})
         run(["git", "apply", "-R", os.path.join(out, "patch.diff")], cwd=vdir)
